@@ -42,7 +42,7 @@ func (c17) Meta() fw.Meta {
 			"the race detector sees only races that happen in the executed schedules; in-flight overlap is measured and a trial without overlap does not count as non-trivial",
 			"requests carry their clock (now) so sequential and concurrent executions are comparable bit for bit",
 		},
-		Obligations: []string{"handle_trials", "handle_concurrent_calls", "sum_trials", "sum_concurrent_calls", "sum_out_of_order_forced", "server_trials", "server_concurrent_requests", "endpoint_view", "endpoint_view_raw", "endpoint_sum", "endpoint_items", "endpoint_files", "cli_race_runs", "max_in_flight_ge2", "requests_differing_only_in_clock", "sum_error_path_trials"},
+		Obligations: []string{"handle_trials", "handle_concurrent_calls", "sum_trials", "sum_concurrent_calls", "sum_out_of_order_forced", "server_trials", "server_concurrent_requests", "endpoint_view", "endpoint_view_raw", "endpoint_sum", "endpoint_items", "endpoint_files", "cli_race_runs", "max_in_flight_ge2", "requests_differing_only_in_clock", "sum_error_path_trials", "trials_with_never_written_archives", "served_file_locked_over_1s"},
 		Race:        true,
 		Workers:     6,
 	}
@@ -55,12 +55,18 @@ func (c17) Cases(tier string) int {
 	return 36
 }
 
+// c17Sparse makes c17FillFile leave some archives never written (set by the trials that want it).
+var c17Sparse = false
+
 func c17FillFile(r *rand.Rand, path string, l model.Layout, now int64, integer bool) {
 	db, err := createFile(path, l)
 	if err != nil {
 		panic(err)
 	}
 	for ai, a := range l.Archs {
+		if c17Sparse && r.Intn(3) == 0 {
+			continue // this archive stays never written
+		}
 		n := int(a.Points)
 		pts := make([]wt.Point, 0, n)
 		for i := 0; i < n; i++ {
@@ -233,6 +239,11 @@ func c17Sum(c *fw.Ctx) {
 	l := genLayout(r, layoutOpts{minArch: 1, maxArch: 3, maxPoints0: 400, smallRatios: true})
 	now := int64(1700000000 + r.Intn(1000000))
 	nf := 2 + r.Intn(39)
+	c17Sparse = c.Index%2 == 0
+	defer func() { c17Sparse = false }()
+	if c17Sparse {
+		c.Count("trials_with_never_written_archives", 1)
+	}
 	var names []string
 	for i := 0; i < nf; i++ {
 		li := l
@@ -459,8 +470,23 @@ func c17Server(c *fw.Ctx) {
 	base := filepath.Join(dir, "served")
 	now := int64(1700000000 + r.Intn(1000000))
 	l := genLayout(r, layoutOpts{minArch: 1, maxArch: 3, maxPoints0: 4000, multiPage: true, smallRatios: true})
+	c17Sparse = c.Index%2 == 0
+	defer func() { c17Sparse = false }()
+	if c17Sparse {
+		c.Count("trials_with_never_written_archives", 1)
+	}
 	items := []string{"a", "b", filepath.Join("n", "x")}
 	var files []string
+	{
+		// a completely never-written file, viewed before and after sums
+		mustMkdir(filepath.Join(base, "fresh"))
+		db, err := createFile(filepath.Join(base, "fresh", "f.wsp"), l)
+		if err != nil {
+			panic(err)
+		}
+		db.Sync()
+		db.Close()
+	}
 	for _, it := range items {
 		mustMkdir(filepath.Join(base, it))
 		for i := 0; i < 2+r.Intn(3); i++ {
@@ -481,6 +507,10 @@ func c17Server(c *fw.Ctx) {
 	var urls []string
 	var kinds []string
 	add := func(kind, u string) { urls = append(urls, baseURL+u); kinds = append(kinds, kind) }
+	// views of the never-written file come FIRST in the sequential reference pass (before any sum ran in the server)
+	for a := -1; a < len(l.Archs); a++ {
+		add("view", fmt.Sprintf("/view?file=%s&retention=%d&from=%s&until=%s&now=%s", url.QueryEscape("fresh/f.wsp"), a, ts(now-l.MaxRet()), ts(now), ts(now)))
+	}
 	for i := 0; i < 40; i++ {
 		f := files[r.Intn(len(files))]
 		if r.Intn(3) == 0 {
@@ -573,8 +603,20 @@ func c17Server(c *fw.Ctx) {
 			}
 		}(order)
 	}
+	// meanwhile another handle holds one served file for more than a second: requests for it must wait, not fail
+	holdDone := make(chan struct{})
+	go func() {
+		defer close(holdDone)
+		<-start
+		if h, err := wt.Open(filepath.Join(base, files[0])); err == nil {
+			time.Sleep(time.Duration(1300+r.Intn(500)) * time.Millisecond)
+			h.Close()
+			c.Count("served_file_locked_over_1s", 1)
+		}
+	}()
 	close(start)
 	wg.Wait()
+	<-holdDone
 	c.Count("server_trials", 1)
 	c.Count("server_concurrent_requests", n)
 	if maxInflight >= 2 {
